@@ -23,11 +23,11 @@ CLAIMS = {
  "C03": ("table agreement parser ↔ AST ↔ printer ↔ evaluator ↔ documentation (typed HIR)",
          "Every operator, modifier, radix, literal keyword, data size and encoding is compared as a table row between the grammar extracted from the nom combinators, "
          "the evaluator's arms (canonicalised expression shapes, operand order), Display, and a reference transcribed from the user guide; precedence classes, left "
-         "fold and prefix shadowing are structural; prefix operators are applied inside-out and no binary result bypasses the operator table. Numeric results are rustc's i64 operations.", "§4 C03"),
+         "fold and prefix shadowing are structural; prefix operators are applied inside-out, no binary result bypasses the operator table, every identifier value passes the `<`/`>` of its own occurrence, `true`/`false` end at a word boundary and a `-` in front of `(` or `$` is a sign. Numeric results are rustc's i64 operations.", "§4 C03"),
  "C04": ("dominance on MIR CFG + type-directed discard detection on HIR + who-may-write table",
          "Shows for the build command that every file-creating or writing call is dominated by the no-error branches of parse and codegen and by the Ok continuation of "
          "merge_segments, that no other function may create files, that every error diagnostic built in the core carries a label unless tabled, that the failure exit "
-         "status is a non-zero constant on every path, and that no Result<_, Diagnostics> is thrown away unreported anywhere in non-test code.", "§4 C04"),
+         "status is a non-zero constant on every path, that no Result<_, Diagnostics> is thrown away unreported anywhere in non-test code, and that the path rejecting an out-of-range branch still emits the instruction (so the error is reported at the branch).", "§4 C04"),
  "C05": ("printer/parser coverage rules on typed HIR + extracted combinator grammar",
          "Every field of every AST variant is printed; every trivia-carrying element a parser closure binds is moved, mapped or has its trivia read; elements bound to `_` "
          "consume constant text or nothing; no bound element reaches the tree only through a lossy Option combinator; swallow-all (`rest`) never occurs without a diagnostic; the file parser is all_consuming; case normalisation never touches "
@@ -40,7 +40,7 @@ CLAIMS = {
          "stack depth and termination of arbitrary programs are not decided.", "§4 C06"),
  "C07": ("structural rules on typed HIR + must-pass-through on MIR",
          "Decides the structural clauses only: polarity of `.if`, iteration domain and `index` binding of `.loop`, positional macro binding after the arity check, "
-         "fresh macro scope, balanced scope/dummy-segment push-pop on every path, per-block symbol insertions not allowed to fail silently, the scoped macro lookup on every path (must-call with wrapper summaries), argument evaluation in the invoking scope, and the defining edge as a symbol's parent. "
+         "a macro scope of its own named after the invocation's position (the same in every pass) and entered with the definition's block, balanced scope/dummy-segment push-pop on every path, per-block symbol insertions not allowed to fail silently, the scoped macro lookup on every path (must-call with wrapper summaries), argument evaluation in the invoking scope, and the defining edge as a symbol's parent. "
          "Equivalence with the hand expansion on concrete programs is not decided.", "§4 C07"),
  "C08": ("grammar extraction from nom combinators: terminal case and trivia-wrapper rules",
          "Every terminal containing a letter is matched case-insensitively; every terminal is reachable only behind a trivia wrapper unless tabled; text kept from a "
@@ -55,7 +55,7 @@ CLAIMS = {
          "reported. Environment nondeterminism is not decided.", "§4 C10"),
  "C11": ("must-pass-through on MIR + two interprocedural label propagations (target vs physical address space)",
          "Single emission choke point with a source-map entry of exactly the emitted length on every path; no comparison or subtraction mixes a target-space address with "
-         "a physical one without the relocation offset; macro re-attribution only under the listing option and by position; half-open address lookups; no context field is overwritten before and read after a nested activation of the code generator without being restored (re-entrancy analysis); listing rows are cut at address gaps, read from the entry's own segment and written to distinct files. Row layout on concrete programs is not decided.", "§4 C11"),
+         "a physical one without the relocation offset; macro re-attribution only under the listing option and by position; half-open address lookups; no context field is overwritten before and read after a nested activation of the code generator without being restored (re-entrancy analysis); listing rows are cut at address gaps, read from the entry's own segment and written to distinct files; the row without bytes and the rows with bytes are decided on the same collection (every source line gets a row). Row layout on concrete programs is not decided.", "§4 C11"),
  "C12": ("formatter coverage and trivia-carrier rules on typed HIR + dominance on MIR",
          "Every text-carrying field of every AST variant is emitted; a Located emitted through `.data` is the token's leading element or tabled (so its comments cannot be lost); "
          "both comment kinds become comment chunks and only blank lines are suppressed; `mos format` writes only after the whole project parsed; a chunk-dropping decision never depends on the text of the line. Token-sequence and byte "
@@ -63,7 +63,7 @@ CLAIMS = {
  "C14": ("field-effect/dominance on MIR, label propagation CLIENTPOS/BYTELEN, hash-order classification, capability table",
          "Analysis results are reset before any early return and, on every path from where a handler reads the client's text, the text is stored, the project re-analysed and diagnostics republished (must-call with wrapper summaries); diagnostics of files that left the project are withdrawn; request handlers do not mutate the shared analysis; "
          "client positions never reach a panicking index; client URIs are never force-unwrapped; no hash order in answers; positions sent are not byte offsets; advertised "
-         "capabilities equal registered handlers. Equality with a fresh server on concrete histories is not decided.", "§4 C14"),
+         "capabilities equal registered handlers; every field of the server context outside a five-line table is re-derived on every path of perform_codegen and request handlers store into no other field; range-only answers (lenses, highlights, semantic tokens, document symbols) are confined to the requested document. Equality with a fresh server on concrete histories is not decided.", "§4 C14"),
  "C15": ("analysis-path coverage on typed HIR (completeness clause only)",
          "Every expression, interpolated string and block of every statement kind reaches a usage-tracking evaluation on the path the language server takes; the usage database "
          "and the evaluator resolve through one traversal; usages carry per-segment spans; rename builds its edits from the definition and all recorded usages of every import of the defining file, in original-document coordinates and only where the recorded text is the symbol's name. Everything "
